@@ -42,7 +42,7 @@ class C10(Prop):
     id = "C10"
     driver = "Env"
     quick_n = 90
-    thorough_n = 2500
+    thorough_n = 8000
     rule = ("(a) replay: an episode (spot, futures, a futures chain across a roll; fees, latency, delay, folds), then a "
             "second episode on the same environment after the first was completed, abandoned mid-way or ended by an "
             "error (malformed action), and the same episode on a freshly built identical environment: all traces must "
@@ -67,6 +67,12 @@ class C10(Prop):
             else:
                 b, _, _ = es.gen_episode(rng, tier, markov=False, warmup=None)
                 b["ops"] = [["reset", None, 0]] + es.gen_actions(rng, b, len(sorted(set(b["grid"]))) - 1)
+            # either environment may abandon its episode and start again (a reset landing between two steps of
+            # the other environment is the interesting schedule: `reset` moves the shared contract clock too)
+            for env_case in (a, b):
+                if rng.random() < 0.5 and len(env_case["ops"]) > 3:
+                    k = rng.randint(2, len(env_case["ops"]) - 1)
+                    env_case["ops"] = env_case["ops"][:k] + env_case["ops"]
             sched = ["A"] * len(a["ops"]) + ["B"] * len(b["ops"])
             # random interleaving that keeps each environment's own order
             rng.shuffle(sched)
